@@ -324,16 +324,15 @@ func (mc *machine) run(rt *rapid.T, q string, o outcome) {
 		}
 		return
 	}
-	if mc.rebuildAfterFailure {
-		// second region of the same finding: while the rows of a statement (or the children of
-		// a row) are being visited, a nested lookup on the same table (self-referencing
-		// constraint) applies the pending edits and shifts the shared index rows / row slots
-		// under the open iterator, so further rows are skipped. Statements that delete or
-		// rewrite two or more rows of a self-referencing table (directly or through
-		// referential actions) are not executed while the finding is listed.
+	if kf.Listed(findingSelfScan) {
+		// region of finding C18-selfref-scan-skips-rows, excluded while it is listed: statements
+		// that delete or rewrite two or more rows of a table with a self-referencing constraint
+		// (directly or through referential actions). While such rows are visited (by the
+		// statement's own scan or by the scan of a cascading action), the nested child lookup on
+		// the same table applies the pending edits and the open scan skips rows.
 		for _, f := range mc.sc.fks {
 			if f.active && f.self() && o.actionRows[f.child] >= 2 {
-				mc.st.Excluded(findingSharedIdx + ":selfref-multi-child")
+				mc.st.Excluded(findingSelfScan)
 				rt.Skip()
 			}
 		}
@@ -1106,6 +1105,13 @@ const findingSharedIdx = "C18-stale-index-after-failed-stmt"
 // rows (memory.Table.CreateIndexForForeignKey); referential actions and RESTRICT checks
 // find children through that index and miss every pre-existing child row.
 const findingFKIndex = "C18-fk-index-not-built"
+
+// findingSelfScan: while the rows of a table with a self-referencing foreign key are visited
+// (by the statement's own scan or by the child scan of a cascading action), the referential
+// action's lookup of the children (same table) goes through tableEditor.IndexedAccess, which
+// applies the pending edits to the table: the storage under the open scan shrinks / is
+// re-sorted and the scan skips rows - the statement silently processes only part of its rows.
+const findingSelfScan = "C18-selfref-scan-skips-rows"
 
 // findingUniqueBypass is C14's finding (not a foreign-key defect): a multi-row UPDATE that
 // gives several rows the same UNIQUE value succeeds, because the unique check of the
